@@ -224,6 +224,14 @@ def announce_vpls(
             # Register flush callbacks for connected peers (if sync mode)
             flush_events = register_flush_callbacks(peers, reactor, sync_mode)
 
+            # what can not be encoded is refused now, not when the UPDATE is built
+            for route in routes:
+                error = validate_announce(route)
+                if error:
+                    self.log_failure(f'invalid route: {error}')
+                    await reactor.processes.answer_error(service, error)
+                    return
+
             for route in routes:
                 reactor.configuration.announce_route(peers, route)
                 peer_list = ', '.join(peers) if peers else 'all peers'
@@ -305,6 +313,14 @@ def announce_attributes(
 
             # Register flush callbacks for connected peers (if sync mode)
             flush_events = register_flush_callbacks(peers, reactor, sync_mode)
+
+            # what can not be encoded is refused now, not when the UPDATE is built
+            for route in routes:
+                error = validate_announce(route)
+                if error:
+                    self.log_failure(f'invalid route: {error}')
+                    await reactor.processes.answer_error(service, error)
+                    return
 
             for route in routes:
                 reactor.configuration.announce_route(peers, route)
@@ -399,6 +415,14 @@ def announce_flow(
 
             # Register flush callbacks for connected peers (if sync mode)
             flush_events = register_flush_callbacks(peers, reactor, sync_mode)
+
+            # what can not be encoded is refused now, not when the UPDATE is built
+            for route in routes:
+                error = validate_announce(route)
+                if error:
+                    self.log_failure(f'invalid route: {error}')
+                    await reactor.processes.answer_error(service, error)
+                    return
 
             for route in routes:
                 reactor.configuration.announce_route(peers, route)
@@ -607,6 +631,14 @@ def announce_ipv4(
             # Register flush callbacks for connected peers (if sync mode)
             flush_events = register_flush_callbacks(peers, reactor, sync_mode)
 
+            # what can not be encoded is refused now, not when the UPDATE is built
+            for route in routes:
+                error = validate_announce(route)
+                if error:
+                    self.log_failure(f'invalid route: {error}')
+                    await reactor.processes.answer_error(service, error)
+                    return
+
             for route in routes:
                 reactor.configuration.announce_route(peers, route)
                 peer_list = ', '.join(peers) if peers else 'all peers'
@@ -688,6 +720,14 @@ def announce_ipv6(
 
             # Register flush callbacks for connected peers (if sync mode)
             flush_events = register_flush_callbacks(peers, reactor, sync_mode)
+
+            # what can not be encoded is refused now, not when the UPDATE is built
+            for route in routes:
+                error = validate_announce(route)
+                if error:
+                    self.log_failure(f'invalid route: {error}')
+                    await reactor.processes.answer_error(service, error)
+                    return
 
             for route in routes:
                 reactor.configuration.announce_route(peers, route)
